@@ -65,11 +65,21 @@ Fixpoint find_target (txs : list transaction) (pl pc : Z) : option (skind * list
            end
   end.
 
-(* allJournalsWithPaths: resolved.Files, then resolved.Primary stored under the CURRENT path *)
+(* getResolvedAround + allJournalsWithPaths (/repo, after the repair of C09's finding): the resolved
+   tree is seen from the requesting document.  When its primary was parsed from another file (the
+   workspace's root journal, request made from an included file), the primary is listed under its
+   OWN path and the requesting document's journal, as just parsed, takes the place of the
+   tree's copy of that document; otherwise the primary is stored under the current path. *)
 Definition jmap := list (N * journal).
 Definition jput (p : N) (j : journal) (m : jmap) : jmap := (p, j) :: filter (fun x => negb (fst x =? p)%N) m.
-Definition all_journals (files : jmap) (primary : option journal) (resolved_exists : bool) (current : N) (cur_journal : journal) : jmap :=
-  if resolved_exists then match primary with Some pj => jput current pj files | None => files end
+Definition jdel (p : N) (m : jmap) : jmap := filter (fun x => negb (fst x =? p)%N) m.
+Definition all_journals (files : jmap) (primary : option journal) (resolved_exists : bool)
+                        (primary_path current : N) (cur_journal : journal) : jmap :=
+  if resolved_exists then
+    if (primary_path =? current)%N
+    then match primary with Some pj => jput current pj files | None => files end
+    else jput current cur_journal
+              (match primary with Some pj => jput primary_path pj (jdel current files) | None => jdel current files end)
   else [(current, cur_journal)].
 
 (* per-file hits in source order *)
